@@ -31,8 +31,10 @@ FUNCTIONS = ['TransposeOperator.mv (jax.linear_transpose traced)', 'CompositionO
 BOUNDS = {'quick': 'every catalogue leaf of 4 structure families, leaf.T/.I(closed form), seeded products/sums/blocks/rule chains '
                    '(same grammar as C01, depth <= 2), einsum subscripts of the catalogue, 3x3 CSR observation-matrix fixture with symbolic entries',
           'thorough': 'same grammar as C01 thorough'}
+BOUNDS['quick'] += '; complex-valued family: 12 leaves with symbolic real and imaginary parts, lazy/own transposes, double transposes, 14 composites (products, sums, blocks) and their transposes'
+BOUNDS['thorough'] += '; complex-valued family: all products and sums of 7 leaves and their transposes'
 STUBS = ['lineax.linear_solve -> contract stub built on lax.custom_linear_solve, so that its transpose is the contract A^T z = y; the real solver is additionally run once per program with a lazy inverse']
-ASSUMPTIONS = ['real arithmetic', 'inner product = harness-own leaf-wise sum of products (real data)',
+ASSUMPTIONS = ['exact real arithmetic (complex-valued family: exact arithmetic in Q(i))', 'inner product = harness-own leaf-wise sum of products, NOT conjugated (the transpose is the bilinear adjoint: TransposeOperator.mv is jax.linear_transpose)',
                'scalars that are inverted are != 0']
 RULE = ('program = expression tree over catalogue leaves; non-trivial = program has symbolic atoms and its transpose is '
         'not the same object; distinct = distinct expression key')
@@ -43,6 +45,8 @@ TOAST = ('toast',)
 
 def cases(tier, seed):
     out = [TOAST, ('toast', 'T')]
+    from .. import cplx
+    out += [('cplx', e) for e in cplx.expressions(tier)]
     rnd = random.Random(f'c03-{seed}')
     for fam in ('vec', 'mat', 'stokes', 'tree'):
         base = [('leaf', n, 0) for n in FAM[fam]]
@@ -137,6 +141,9 @@ def run_case(key, twin=False):
         return run_case(key[1], twin=True)
     if key[0] == 'toast':
         return _toast_case(key, twin)
+    if key[0] == 'cplx':
+        from .. import cplx
+        return cplx.check_adjoint(c01._tuplify(key[1]), twin)
     fam, e = key
     bld = Builder(fam)
     try:
@@ -207,6 +214,12 @@ def replay(key, model, info):
     kind = info.get('kind')
     if key[0] == 'toast':
         return True, 'toast fixture: symbolic verdict only (fixture is 3x3, see model)'
+    if key[0] == 'cplx':
+        from .. import cplx
+        if kind == 'struct':
+            r = cplx.check_adjoint(c01._tuplify(key[1]))
+            return r['status'] == 'violation', r.get('what', 'ok')
+        return cplx.replay(c01._tuplify(key[1]), model, kind, twin)
     fam, e = key
     e = c01._tuplify(e)
     with real_solver():
